@@ -207,7 +207,7 @@ CLAIMS.update({
              "least one message' (C10_reported). Recursion (D8), faults inside parallel loops (D9), loop limits (D10), nested "
              "literal rules (D12a) and the raising lookups (D11) were refuted, were repaired in /repo and are now proved / "
              "reported. Still REFUTED on the faithful model: guard typing (D12b). Classes without a theorem (argument types, "
-             "operand types, literal value types and lengths, deeper path steps) are covered by correspondence only: all 89 "
+             "operand types, literal value types and lengths, deeper path steps) are covered by correspondence only: all 100 "
              "catalogue entries x 8 position kinds x wrapping depth 0..3; all of them are reported.",
         technique="Coq proof (induction on the statement tree, local lemma per fault class) + vm_compute witnesses "
                   "+ fault injection with differential correspondence",
@@ -254,6 +254,38 @@ CLAIMS.update({
 })
 
 NOT_YET = "check not built yet in this revision (see DESIGN.md §11 staging); will be claimed when its theorem and correspondence slice exist"
+
+
+# theorems added after the first integration round (separate restatement files Properties/<X>.v)
+CLAIMS["C04"]["text"] += (
+    " ADDITIONALLY PROVED for ALL schedules and histories (RefC04.v, Properties/C04ctx.v): every variable query names a task "
+    "instance that has been announced started and not yet finished at that moment (C04_query_context_ref, monitor "
+    "holds_C04q with its declarative meaning holds_C04q_meaning); what follows a query in the same call belongs to the block "
+    "of the queried instance - another query in that instance, a started notification whose enclosing instance it is, or its "
+    "own task-finished - so the context is the INNERMOST instance, not an open ancestor (C04_query_innermost_programs, "
+    "monitor holds_C04n); the decision depends only on the answers given during that evaluation, numbered from the oracle "
+    "counter at that moment (decide_m_moment), and the queries of a call are whole evaluations of guards / limits of the "
+    "program (api_call_query_blocks). Both monitors are applied to every implementation trace.")
+CLAIMS["C13"]["text"] = CLAIMS["C13"]["text"].replace(
+    "Precedence (text -> tree) is tied by correspondence only so far; the known finding D14 ('/' then '*') is reported as KNOWN-FINDING.",
+    "Precedence (Front/PrecedenceProofs.v, Properties/C13prec.v): the level table regenerated from the grammar differs from the "
+    "stated one on exactly the ordered pairs '/ then *' and '+ then -'; for every expression tree in standard normal form the "
+    "generated parser reads its text as regen e (gen_reads_regen); without those two adjacencies text -> tree, value and "
+    "decision are the stated ones (C13_partial, C13_value_partial, the guards are exact: C13_guard_exact); the full statement "
+    "is REFUTED on the faithful model (C13_standard_precedence_refuted: '8 / 2 * 2' is 2, not 8; '1 + 2 - 3' has another tree "
+    "but the same value) - known finding D14, reported as KNOWN-FINDING. Guards are additionally evaluated inside running "
+    "orders (Conditions and loops re-evaluated against current values).")
+for _p in ("C17", "C20"):
+    CLAIMS[_p]["text"] += (
+        " ADDITIONALLY PROVED ON THE FAITHFUL NET MODEL (NetShape.v, Properties/C20net.v), i.e. on the transliteration of "
+        "scheduler.py itself rather than on the reference semantics: for every engine that does not complete services from "
+        "inside notifications, one notification appends exactly the registered functions of its kind in registration order "
+        "followed by one entry per attached observer, all naming the same entity and identifier, the flag exactly on the "
+        "production task's finished notification (notify_user_shape), lifted through evaluate / fire_event / the API calls / "
+        "whole scripts by a frame rule (run_net_shape, net_C20_same_sequence, net_C17_observer_matches_function, net_C17_flag); "
+        "for EVERY engine incl. re-entrant completions each registered function and each observer is invoked exactly once per "
+        "notification in a well-nested group (run_net_wf, net_C20_same_count_all_engines); 'same entity' is REFUTED for "
+        "re-entrant engines (C20_same_sequence_all_engines_false = known finding D26).")
 
 
 def main():
